@@ -21,11 +21,11 @@ RULE = (
 )
 ASSUMPTIONS = [
     "WRAP NO, one depth step per line, plain decimal spellings only (the property's precondition)",
-    "declared curves == data columns",
+    "the curves declared in ~C are all / one fewer than / none of / one more than the data columns",
     "the engine trace hook (LASIO_VERIF=1) reports the engine truthfully; it is 3 add-only lines next to the calls",
 ]
 
-SPELL = ["7", "-3", "+2", "1.5", "-0.25", ".5", "5.", "1e3", "1.5E-02", "-0.0", "0012", "-999.25"]
+SPELL = ["7", "-3", "+2", "1.5", "-0.25", ".5", "5.", "1e3", "1.5E-02", "-0.0", "0012", "-999.25", "9999.25", "-9999.25", "999.25"]
 NOISE = {
     "none": [],
     "blank": [""],
@@ -78,6 +78,11 @@ AXES_THOROUGH = [
     ("eol", ["\n", "\r\n"]),
     ("final_nl", [True, False]),
     ("dlm", [None, "TAB"]),
+    # curves declared in ~C relative to the data columns: all of them, one fewer, none, one more
+    ("declared", ["all", "fewer", "none", "more"]),
+    # reads of ANOTHER file with list-valued policies before the two reads that are compared (nothing they do may
+    # carry over into a later default read)
+    ("prelude", [None, "null-list", "read-list", "both-lists"]),
 ]
 CORE = ["rows", "cols", "before", "after", "follows", "eol", "final_nl"]
 DEV = {"quick": 3, "thorough": 4}
@@ -107,6 +112,13 @@ def build_text(pt):
     rows, cols = pt["rows"], pt["cols"]
     toks = [[SPELL[(i * cols + j + pt["rot"]) % len(SPELL)] for j in range(cols)] for i in range(rows)]
     curves = [("C%d" % j, "", "", "curve %d" % j) for j in range(cols)]
+    decl = pt.get("declared", "all")
+    if decl == "fewer":
+        curves = curves[:-1]
+    elif decl == "none":
+        curves = []
+    elif decl == "more":
+        curves = curves + [("CX", "", "", "declared without a column")]
     pre = {
         "V": lasgen.version_section("2.0", "NO", dlm=pt.get("dlm")),
         "W": lasgen.well_section("-999.25", extra=[lasgen.item_line("WELL", "", "w1", "well")]),
@@ -153,8 +165,23 @@ def expected_matrix(toks):
     return out
 
 
+PRELUDE_TEXT = ("~V\nVERS. 2.0 :\nWRAP. NO :\n~W\nSTRT.M 1 :\nSTOP.M 2 :\nSTEP.M 1 :\nNULL. -999.25 :\n~C\nD.M :\nG. :\n~A\n"
+                "1 5.5\n2 -999.25\n")
+PRELUDES = {
+    "null-list": [{"null_policy": ["NULL", "9999.25", "(null)"]}],
+    "read-list": [{"read_policy": ["comma-decimal-mark", "run-on(-)"]}],
+    "both-lists": [{"null_policy": [-999.25, "NULL", "999.25"], "read_policy": ["run-on(.)", "comma-decimal-mark"]},
+                   {"null_policy": "all", "read_policy": "comma-delimiter", "engine": "normal"}],
+}
+
+
 def check_point(pt):
     text, toks = build_text(pt)
+    for kw in PRELUDES.get(pt.get("prelude"), []):
+        try:
+            lasio.read(PRELUDE_TEXT, **kw)
+        except Exception:
+            pass
     a, las_a = observe(text, "numpy")
     b, las_b = observe(text, "normal")
     trace = getattr(las_a, "_verif_engine_trace", None) if las_a is not None else None
@@ -185,6 +212,8 @@ def check_point(pt):
             got = las_a.data
             m = np.array(exp)
             m[:, 1:][m[:, 1:] == -999.25] = np.nan
+            if pt.get("declared") == "more":
+                m = np.hstack([m, np.full((m.shape[0], 1), np.nan)])
             both_correct = got.shape == m.shape and np.array_equal(np.isnan(got), np.isnan(m)) and np.array_equal(
                 np.nan_to_num(got), np.nan_to_num(m))
         except Exception:
